@@ -177,8 +177,14 @@ type textProgressBar struct {
 	colorB          *colorful.Color
 }
 
+// kMaxTmuxPaneColumns bounds the tmux pane width a peer may announce: the progress line is built that wide.
+const kMaxTmuxPaneColumns = 10000
+
 func newTextProgressBar(writer io.Writer, columns int32, tmuxPaneColumns int32,
 	tmuxPrefix, colorPair string) *textProgressBar {
+	if tmuxPaneColumns > kMaxTmuxPaneColumns {
+		tmuxPaneColumns = 0 // the pane width is announced by the peer: no pane is that wide
+	}
 	if tmuxPaneColumns > 1 {
 		columns = tmuxPaneColumns - 1 //  -1 to avoid messing up the tmux pane
 	}
